@@ -55,10 +55,24 @@ def cargo_env():
 _built = {}
 
 
+def sweep_scratch():
+    """scratch trees of harness processes that were killed (never of running ones: only directories untouched for 3 hours)"""
+    import glob
+    now = time.time()
+    for base in ("/dev/shm", "/tmp"):
+        for d in glob.glob(os.path.join(base, "vh-*")):
+            try:
+                if now - os.path.getmtime(d) > 3 * 3600:
+                    shutil.rmtree(d, ignore_errors=True)
+            except OSError:
+                pass
+
+
 def build_harness():
     """(Re)build the harness against /repo's working tree with the hooks enabled."""
     if _built.get("vh"):
         return
+    sweep_scratch()
     lock = os.path.join(HARNESS, "Cargo.lock")
     if not os.path.exists(lock):
         shutil.copy(os.path.join(REPO, "Cargo.lock"), lock)
